@@ -276,15 +276,17 @@ def ob_dejitter_after_reference_edit(timeout):
 
 def ob_morph_mismatch(timeout):
     def body(hi, s0, e0):
-        src = IntervalTier("s", [Interval(s0, e0, "x")], 0.0, hi)
-        tgt = IntervalTier("g", [], 0.0, hi)
-        try:
-            src.morph(tgt)
-        except errors.SafeZipException:
-            return True
-        return "mismatched entry counts accepted"
+        one = IntervalTier("s", [Interval(s0, e0, "x")], 0.0, hi)
+        none = IntervalTier("g", [], 0.0, hi)
+        for src, tgt in ((one, none), (none, one)):
+            try:
+                src.morph(tgt)
+            except errors.SafeZipException:
+                continue
+            return "mismatched entry counts accepted (%d vs %d)" % (len(src.entries), len(tgt.entries))
+        return True
 
-    return Ob("morph-mismatched-counts", F("hi", "s0", "e0"), body, lambda hi, s0, e0: ivs_wf_pre(0.0, hi, s0, e0) & (hi <= 512.0), fmode="real", timeout=timeout, funcs=[FUNCS[3], FUNCS[5]], bounds="1 vs 0 intervals")
+    return Ob("morph-mismatched-counts", F("hi", "s0", "e0"), body, lambda hi, s0, e0: ivs_wf_pre(0.0, hi, s0, e0) & (hi <= 512.0), fmode="real", timeout=timeout, funcs=[FUNCS[3], FUNCS[5]], bounds="1 vs 0 and 0 vs 1 intervals")
 
 
 def obligations(tier):
